@@ -45,6 +45,10 @@ class MathGen(object):
         if k < 0.06:
             s = r.choice('fgh') + r.choice(["'", "''", '--', "`"])      # primes / ligature-like sequences must stay ASCII in math
             self.features.add('prime-or-dashes')
+        elif k < 0.12:
+            # an empty group: behind a control word, as the carrier of a prescript, as a separator between two signs
+            s = r.choice([r.choice(GREEK) + '{}', '{}^{14}_{6}C', '{}_' + r.choice('nk') + ' x', '-{} ' + r.choice('ab'), '{}= ', '{}'])
+            self.features.add('empty-group')
         elif k < 0.4:
             s = r.choice('abcdxyzmnk')
         elif k < 0.55:
